@@ -983,6 +983,12 @@ class Consumer(object):
         proc_block_end = proc_block_size
 
         while proc_block_begin < len(messages) and not self._shuttingdown:
+            if self._start_d is None or self._start_d.called:
+                # We were stopped, or an unrecoverable error (such as a processor
+                # failure) was already reported via the start() deferred. Don't
+                # deliver further messages: last_processed_offset (and thus any
+                # commit) must not advance past a message which failed.
+                break
             msgs_to_proc = messages[proc_block_begin:proc_block_end]
             # Call our processor callable and handle the possibility it returned
             # a deferred...
